@@ -409,6 +409,9 @@ pub fn run(ctx: &mut Ctx) {
             ("Cool with @liquid nitrogen{77%K} below @limit{=300%K}, keep @water{20%°C} and @oil{350%°F}.", Extensions::all().bits(), J::Null),
             ("Wait ~{500%ms} then ~{20-40%ms} then ~{90%min}; add @a{3%gs} @b{2%ls} @c{1%kgs} @d{5%mins} @e{2%tsps} @f{1%Ls}.", (Extensions::all() ^ Extensions::ADVANCED_UNITS).bits(), J::Null),
             ("@a{500%ms} @b{3%gs} @c{2%ozs} @d{1%lbss} @e{4%cm s}", Extensions::all().bits(), J::Null),
+            // every SI prefix of every expanded unit, by symbol and by name
+            ("Knead @flour{25%dag} with @water{1%dal}, @a{3%dl}, @b{2%dg}, @c{5%dm}, @d{4%hl}, @e{7%cg}, @f{2%hg}, @g{3%dam}, @h{1%kl} and @i{9%cm}.", Extensions::all().bits(), J::Null),
+            ("@a{2%decagrams} @b{3%deciliters} @c{1%hectogram} @d{4%centiliters} @e{5%kilometers} @f{6%milligrams} @g{1%decaliter} @h{2%decimeters}", Extensions::all().bits(), J::Null),
             // ranges that start at zero, with units of every system and without
             ("Add @flour{0-2%kg}, @salt{0-1%tsp}, @milk{0-0.5%l}, @x{0-0%g}, @sugar{0-3%oz}, @y{0-2} and @z{0-4%pinch} for ~{0-10%min}.", Extensions::all().bits(), J::Null),
             (">> servings: 4\n>> title: Soup\n>> description: warm\n\nAdd @flour{0-2%kg} and @water{1%l}.\n", Extensions::all().bits(), json!([4])),
